@@ -183,4 +183,173 @@ theorem try_pinned_splits_operand_counterexample :
     (convertTryPinned true (cs% "try") [.expr opSum]).map (fun o => (o.render, o.scope false)) =
       some (cs% "a + b?", none) := by decide
 
+/-! ## §3 `(a, _, _, _)` → `(a, ..)` (`count_wildcard_suffix_len`, condense_wildcard_suffixes) -/
+
+/-- **It fires exactly when** the option is on, the pattern has no `..` yet, and at least two trailing elements are
+rendered `_` (counted from the end, up to and including the first one that carries a comment). -/
+theorem condense_exact (opt : Bool) (items : List TItem) :
+    condenseFires opt items = true ↔
+      (opt = true ∧ hasDotdot items = false ∧ countWildcardSuffixLen items ≥ 2) := by
+  simp [condenseFires, Bool.and_eq_true, and_assoc]
+
+/-- only a SUFFIX is touched: what is printed is the untouched front followed by `..` -/
+theorem condense_shape (opt : Bool) (items : List TItem) (h : condenseFires opt items = true) :
+    condense opt items =
+      (items.take (items.length - countWildcardSuffixLen items)).map TItem.text ++ [restText] ∧
+    (items.drop (items.length - countWildcardSuffixLen items)).map TItem.text =
+      List.replicate (countWildcardSuffixLen items) wildText := by
+  exact ⟨by simp [condense, h], suffix_is_wild items⟩
+
+/-- **Sound.**  For a tuple of any number of fields `n` that the source pattern fits, the printed pattern says the same
+about every field: the `..` stands for exactly the wildcards it replaced. -/
+theorem condense_sound (opt : Bool) (items : List TItem) (n : Nat) (d : List Str)
+    (h : tupleDen n (items.map TItem.text) = some d) :
+    tupleDen n (condense opt items) = some d := by
+  by_cases hf : condenseFires opt items = true
+  · obtain ⟨hshape, hsuf⟩ := condense_shape opt items hf
+    obtain ⟨_, hdd, hc2⟩ := (condense_exact opt items).mp hf
+    have hle := count_le_length items
+    generalize hcdef : countWildcardSuffixLen items = c at *
+    -- the source has no `..`: it denotes itself, and has `n` elements
+    have hany : (items.map TItem.text).any (· == restText) = false := by
+      simpa [hasDotdot, List.any_map, Function.comp_def] using hdd
+    have hfil := filter_eq_nil_of_not_any hany
+    have hlen : items.length = n ∧ d = items.map TItem.text := by
+      unfold tupleDen at h
+      simp only [hfil, List.length_nil] at h
+      split at h
+      · rename_i hl; simp at hl; simp at h; exact ⟨hl, h.symm⟩
+      · simp at h
+    obtain ⟨hn, hd⟩ := hlen
+    -- the front has no `..` either
+    have hfront : ∀ y ∈ (items.take (items.length - c)).map TItem.text, (y != restText) = true := by
+      intro y hy
+      rw [List.any_eq_false] at hany
+      have : y ∈ items.map TItem.text := by
+        obtain ⟨i, hi, rfl⟩ := List.mem_map.mp hy
+        exact List.mem_map_of_mem (List.mem_of_mem_take hi)
+      have := hany y this
+      simpa [bne] using this
+    rw [hshape]
+    generalize hP : (items.take (items.length - c)).map TItem.text = P at *
+    have hPlen : P.length = items.length - c := by
+      rw [← hP]; simp [List.length_take]
+    have hfilter : (P ++ [restText]).filter (· == restText) = [restText] := by
+      rw [List.filter_append]
+      have : P.filter (· == restText) = [] := by
+        rw [List.filter_eq_nil_iff]
+        intro a ha
+        have := hfront a ha
+        simpa [bne] using this
+      simp [this]
+    unfold tupleDen
+    simp only [hfilter, List.length_singleton]
+    have hle2 : (P ++ [restText]).length - 1 ≤ n := by simp [hPlen]; omega
+    simp only [hle2, if_true]
+    rw [takeWhile_append_stop P restText [] hfront (by simp [bne]),
+        dropWhile_append_stop P restText [] hfront (by simp [bne])]
+    have hcnt : n - ((P ++ [restText]).length - 1) = c := by simp [hPlen]; omega
+    rw [hcnt, hd]
+    have hsplit : items.map TItem.text =
+        (items.take (items.length - c)).map TItem.text ++ (items.drop (items.length - c)).map TItem.text := by
+      rw [← List.map_append, List.take_append_drop]
+    rw [hsplit, hP, hsuf]
+    simp
+  · have : condense opt items = items.map TItem.text := by simp [condense, hf]
+    rw [this]; exact h
+
+example : condense true [⟨cs% "a", false⟩, ⟨cs% "_", false⟩, ⟨cs% "_", false⟩, ⟨cs% "_", false⟩] = [cs% "a", cs% ".."] := by
+  decide
+example : tupleDen 4 [cs% "a", cs% ".."] = some [cs% "a", cs% "_", cs% "_", cs% "_"] := by decide
+/-- one trailing wildcard is not condensed; a wildcard in parentheses or an or-pattern of wildcards is no wildcard -/
+example : condense true [⟨cs% "a", false⟩, ⟨cs% "_", false⟩] = [cs% "a", cs% "_"] := by decide
+example : condense true [⟨cs% "_", false⟩, ⟨cs% "(_)", false⟩] = [cs% "_", cs% "(_)"] := by decide
+/-- a comment ends the count behind the element that carries it -/
+example : condense true [⟨cs% "_", false⟩, ⟨cs% "_", true⟩, ⟨cs% "_", false⟩] = [cs% "_", cs% ".."] := by decide
+
+/-- with a `..` already there the repaired code leaves the pattern alone -/
+theorem condense_never_next_to_dotdot (opt : Bool) (items : List TItem) (h : hasDotdot items = true) :
+    condense opt items = items.map TItem.text := by
+  simp [condense, condenseFires, h]
+
+/-- **The pinned tree wrote a second `..`**: `(a, .., _, _)` became `(a, .., ..)`, which fits no tuple at all. -/
+theorem condense_pinned_counterexample :
+    let items : List TItem := [⟨cs% "a", false⟩, ⟨cs% "..", false⟩, ⟨cs% "_", false⟩, ⟨cs% "_", false⟩]
+    condensePinned true items = [cs% "a", cs% "..", cs% ".."] ∧
+      tupleDen 5 (items.map TItem.text) = some [cs% "a", cs% "_", cs% "_", cs% "_", cs% "_"] ∧
+      tupleDen 5 (condensePinned true items) = none ∧
+      condense true items = items.map TItem.text := by decide
+
+/-! ## §4 `((x))` → `(x)` (`rewrite_paren`, remove_nested_parens) -/
+
+/-- **Sound.**  Nothing but parentheses goes: the attributes, the comments and the innermost expression of the printed
+form are those of the source, in the same order. -/
+theorem paren_norm_sound (opt : Bool) (e : PExpr) : (e.norm opt).hard = e.hard := by
+  induction e using PExpr.norm.induct opt with
+  | case1 t => simp [PExpr.norm]
+  | case2 a pre post t => simp [PExpr.norm]
+  | case3 a pre post a' pre' post' inner hc ih =>
+    rw [PExpr.norm]
+    simp only [hc, if_true]
+    rw [ih]
+    simp only [Bool.and_eq_true, List.isEmpty_iff] at hc
+    obtain ⟨⟨⟨_, ha'⟩, hpre⟩, hpost⟩ := hc
+    subst ha'; subst hpre; subst hpost
+    cases a <;> cases pre' <;> simp [PExpr.hard]
+  | case4 a pre post a' pre' post' inner hc ih =>
+    rw [PExpr.norm]
+    simp only [hc]
+    show (PExpr.paren a pre post (PExpr.norm opt (PExpr.paren a' pre' post' inner))).hard = _
+    rw [PExpr.hard, ih]
+    simp [PExpr.hard]
+
+/-- a parenthesised expression stays parenthesised: the outermost pair is never the one that goes -/
+theorem paren_norm_keeps_outer (opt : Bool) (e : PExpr) (h : e.depth ≥ 1) : (e.norm opt).depth ≥ 1 := by
+  induction e using PExpr.norm.induct opt with
+  | case1 t => simp [PExpr.depth] at h
+  | case2 a pre post t => simp [PExpr.norm, PExpr.depth]
+  | case3 a pre post a' pre' post' inner hc ih =>
+    rw [PExpr.norm]; simp only [hc, if_true]
+    exact ih (by simp [PExpr.depth])
+  | case4 a pre post a' pre' post' inner hc ih =>
+    rw [PExpr.norm]; simp only [hc]
+    simp [PExpr.depth]
+
+/-- option off: the identity -/
+theorem paren_norm_off (e : PExpr) : e.norm false = e := by
+  induction e using PExpr.norm.induct false with
+  | case1 t => simp [PExpr.norm]
+  | case2 a pre post t => simp [PExpr.norm]
+  | case3 a pre post a' pre' post' inner hc ih => simp at hc
+  | case4 a pre post a' pre' post' inner hc ih =>
+    rw [PExpr.norm]; simp [ih]
+
+/-- **It fires exactly when**: a pair directly inside another goes iff the option is on, no comment stands between the
+two and the inner pair has no attributes (one step of the loop). -/
+theorem paren_norm_exact (opt : Bool) (a pre post a' pre' post' : Str) (inner : PExpr) :
+    (PExpr.paren a pre post (.paren a' pre' post' inner)).norm opt =
+      (if opt = true ∧ a' = [] ∧ pre = [] ∧ post = [] then (PExpr.paren a pre' post' inner).norm opt
+       else .paren a pre post ((PExpr.paren a' pre' post' inner).norm opt)) := by
+  rw [PExpr.norm]
+  by_cases h : opt = true ∧ a' = [] ∧ pre = [] ∧ post = []
+  · obtain ⟨h1, h2, h3, h4⟩ := h; subst h1 h2 h3 h4; simp
+  · have : (opt && a'.isEmpty && pre.isEmpty && post.isEmpty) = false := by
+      cases opt <;> simp_all [List.isEmpty_iff]
+    simp [this, h]
+
+example : ((PExpr.paren [] [] [] (.paren [] [] [] (.paren [] [] [] (.atom (cs% "a"))))).norm true).render = cs% "(a)" := by
+  simp [PExpr.norm, PExpr.render]
+/-- an attribute on the inner pair, or a comment between the pairs, keeps both -/
+example : ((PExpr.paren [] [] [] (.paren (cs% "#[attr]") [] [] (.atom (cs% "a + b")))).norm true).render =
+    cs% "(#[attr] (a + b))" := by simp [PExpr.norm, PExpr.render]
+example : ((PExpr.paren [] (cs% "/* c */") [] (.paren [] [] [] (.atom (cs% "a")))).norm true).render =
+    cs% "(/* c */(a))" := by simp [PExpr.norm, PExpr.render]
+
+/-- **The pinned tree lost the attribute**: `(#[attr] (a + b))` became `(a + b)`. -/
+theorem paren_pinned_drops_attribute_counterexample :
+    let e := PExpr.paren [] [] [] (.paren (cs% "#[attr]") [] [] (.atom (cs% "a + b")))
+    (e.normPinned true).render = cs% "(a + b)" ∧ (e.normPinned true).hard ≠ e.hard ∧
+      (e.norm true).hard = e.hard := by
+  refine ⟨by simp [PExpr.normPinned, PExpr.render], by simp [PExpr.normPinned, PExpr.hard], paren_norm_sound _ _⟩
+
 end RF.Props.OptRewrites
